@@ -6,7 +6,7 @@ from .pybuild import PyFile
 CONF_MODES = ["absent", "defines", "defines2", "overrides", "star", "star_abs", "explicit",
               "explicit_as", "plugins", "star_chain", "empty", "defines_other"]
 SCOPES = [None, "function", "class", "module", "package", "session"]
-NAMES = ["foo", "bar", "baz"]
+NAMES = ["foo", "bar", "baz", "_hid"]
 
 
 class WS:
@@ -78,6 +78,10 @@ def gen_workspace(rng, depth=None, force=None):
             rand_fixture(rng, mf, name)
             if rng.random() < 0.4:
                 rand_fixture(rng, mf, "bar")
+            if rng.random() < 0.3:
+                # a fixture whose name starts with an underscore is a fixture like any other: pytest registers it
+                # whatever Python's `import *` would do with the name
+                rand_fixture(rng, mf, "_hid")
             ws.add(join(d, mod + ".py"), mf)
             if mode == "star":
                 cf.add("from .%s import *" % mod)
